@@ -38,6 +38,9 @@ pub enum Fault {
     /// send the head (full Content-Length) and the first k body bytes, then go silent for 4 seconds
     /// before closing: only a receive timeout of the client ends the wait earlier
     Stall(usize),
+    /// correct status and body, but a malformed Content-Range header (variant: `*/0`, `0-13`, empty,
+    /// non-ASCII, `bytes` without a range)
+    BadContentRange(usize),
     /// redirect to self
     Redirect,
     /// this and every later request is redirected to a fresh URL of this server, up to the given
@@ -250,7 +253,7 @@ fn handle(mut stream: TcpStream, shared: Arc<Mutex<Shared>>) {
         let mut declared: Option<usize> = None;
         let mut close_after: Option<usize> = None;
         match &fault {
-            Fault::None | Fault::Refuse | Fault::Chunked => {}
+            Fault::None | Fault::Refuse | Fault::Chunked | Fault::BadContentRange(_) => {}
             Fault::CutAfter(k) => {
                 declared = Some(body.len());
                 close_after = Some((*k).min(body.len()));
@@ -302,7 +305,15 @@ fn handle(mut stream: TcpStream, shared: Arc<Mutex<Shared>>) {
         } else {
             format!("HTTP/1.1 {} X\r\nContent-Length: {}\r\nAccept-Ranges: bytes\r\n", status, clen)
         };
-        if let (206, Some((a, _))) = (status, range) {
+        if let Fault::BadContentRange(k) = &fault {
+            let v: &[u8] = [&b"*/0"[..], &b"0-13"[..], &b""[..], &b"bytes \xff\xfe-\xff/9"[..], &b"bytes"[..]][*k % 5];
+            let mut raw = headbuf.into_bytes();
+            raw.extend_from_slice(b"Content-Range: ");
+            raw.extend_from_slice(v);
+            raw.extend_from_slice(b"\r\n");
+            // (the head is sent as raw bytes below: a header value need not be UTF-8)
+            headbuf = unsafe { String::from_utf8_unchecked(raw) };
+        } else if let (206, Some((a, _))) = (status, range) {
             headbuf.push_str(&format!("Content-Range: bytes {}-{}/{}\r\n", a, a + body.len().max(1) as u64 - 1, flen));
         }
         if !keep_alive {
